@@ -365,10 +365,13 @@ def check_ensemble(case, ctx):
     others = np.delete(arr, i0, axis=-1)
     ctx.nontrivial(many and bool(others.size and others.max() > 1e-3))
     dev = np.abs(arr.sum(axis=-1) - 1.0)
+    # for these cells (c along z) an untilted beam has g_z = l / c
+    has_gz = bool(np.any(np.array([a for r in rot[1::2] for a in np.ravel(r)], float) != 0) or np.any(hkl[:, 2] != 0))
+    ctx.label("some g_z != 0" if has_gz else "all g_z = 0")
     if not dev.max() <= 1e-4:
         raise Violation(
             f"eager ensemble intensities sum to 1 + {dev.max():.3e} for some member/thickness for {case}",
-            ("ensemble", "not_one", "eager", ">=2 members" if many else "1 member"),
+            ("ensemble", "not_one", "gz" if has_gz else "gz=0"),
         )
     lazy = np.asarray(ens.calculate_diffraction_patterns(tl, lazy=True).compute().array, float)
     if lazy.shape != arr.shape or not float(np.abs(lazy - arr).max()) <= 1e-10:
